@@ -374,8 +374,10 @@ func (h *framerH) eval(st *stream, cuts []int, bufSize int, kind string) {
 	if sig == "" && st.bad < 0 {
 		// the same stream and segmentation through the two other legal reader behaviours
 		for _, mode := range []string{"eof-with-last", "empty-reads"} {
-			if mode == "empty-reads" && (len(st.b) > 512 || len(cuts) > 8) {
-				continue // 40 extra reads per data read: kept to the short streams (the behaviour does not depend on the length)
+			if mode == "empty-reads" && (len(st.b) > 512 || (len(cuts) > 8 && kind != "byte-at-a-time")) {
+				// 8 extra reads per data read: kept to the short streams and few segments - and to the byte-at-a-time
+				// delivery of streams up to 512 bytes, where one frame sees hundreds of empty reads in total
+				continue
 			}
 			h.evals++
 			if sig, detail = h.runMode(st, cuts, h.bufs[bufSize], mode); sig != "" {
